@@ -133,7 +133,7 @@ class LayeredArchitectureAutomaton:
         return [l for l in self.layers if l[1] is None]
 
     def step(self, name: str, arg=NOARG):
-        if name == "with_layer":
+        if name in ("with_layer", "READ"):
             return None
         if name == "layer":
             if self.pending():
